@@ -13,7 +13,7 @@ def gen_case(rng, i, tier):
     ch, rate = rng.choice(CONFIGS)
     if i % 41 == 9:
         ch = rng.choice([16, 100, 255, 256])
-    sig = rng.choice([0, 1, 1, 2, 3, 4, 5, 6, 7])
+    sig = rng.choice([0, 1, 1, 2, 3, 4, 5, 6, 7, 8, 8, 9])
     n = rng.choice([0, 1, 300, 3000, 12000] + ([60000] if tier == "thorough" else []))
     if ch > 8:
         n = min(n, 3000)
@@ -51,6 +51,12 @@ def run(chk):
     for chn in (1, 2, 254, 255, 256, 257):
         cases.append(["case %d" % len(cases), "enc %d 44100 0.30 1 7 600" % chn])
         cases.append(["case %d" % len(cases), "enc %d 8000 m-1:%d:-1 0 7 600" % (chn, 16000 * chn)])
+    # tonal block: harmonic complexes on every narrow-band / low-quality set-up, long enough for many long blocks: residue vectors that
+    # quantise onto the grid points of the sparse residue books (where an entry can be unused)
+    for chn, rate in ((1, 8000), (2, 8000), (1, 11025), (1, 16000), (2, 16000), (1, 22050), (2, 22050)):
+        for q in ("-0.10", "0.00"):
+            for sg in (8, 9):
+                cases.append(["case %d" % len(cases), "enc %d %d %s %d 11 16000" % (chn, rate, q, sg)])
     cases += common.load_corpus("C05", len(cases))
     res = vlib.run_harness_only("c05", cases, timeout=3000)
     crash, ofail, dis = [], [], []
@@ -133,7 +139,7 @@ def run(chk):
             d = d or (0, "", "model produced no output " + mr.get("err_m", "")[-200:])
             dis.append(({"ops": r["ops"], "c": expect[k][max(0, d[0] - 2):d[0] + 2], "m": mo[max(0, d[0] - 2):d[0] + 2]}, (d[0], d[1][:200], d[2][:200])))
     chk.coverage["rule"] = ("31 channel/rate configurations (+16/100/255/256 channels) x VBR qualities -0.1..1.0 and managed set-ups (nominal only, hard max, hard min, CBR, both, tiny reservoir) x "
-                            "signals (sine, noise, silence, impulses, loud, one channel only, denormals, x10) x lengths; headers and every packet go through the C decoder and through the "
+                            "signals (sine, noise, silence, impulses, loud, one channel only, denormals, x10, harmonic tone complexes within and beyond full scale) x lengths; headers and every packet go through the C decoder and through the "
                             "Lean header/packet-header model (strict: Huffman trees must be valid); oracles: header fields = encoder info, flags agree with neighbours, bits consumed. "
                             "distinct = distinct enc lines")
     chk.coverage["distribution"] = dist
